@@ -144,6 +144,8 @@ type provEnv struct {
 	fd   *ast.FuncDecl
 	defs map[types.Object][]ast.Node
 	encl map[ast.Node][]ast.Node
+	// sym: variables a rule wants kept symbolic (named) instead of traced to their definitions
+	sym map[types.Object]string
 }
 
 func newProvEnv(pk *packages.Package, fd *ast.FuncDecl) *provEnv {
@@ -190,6 +192,13 @@ func (pe *provEnv) provD(e ast.Expr, depth int) string {
 	}
 	info := pe.pk.TypesInfo
 	e = ast.Unparen(e)
+	if pe.sym != nil {
+		if id, ok := e.(*ast.Ident); ok {
+			if nm, ok := pe.sym[info.Uses[id]]; ok {
+				return nm
+			}
+		}
+	}
 	// constants of named types by name, other constants by value
 	switch x := e.(type) {
 	case *ast.SelectorExpr:
@@ -279,7 +288,18 @@ func (pe *provEnv) provD(e ast.Expr, depth int) string {
 				}
 			case "Await":
 				if len(x.Args) == 2 {
-					if ix, ok := ast.Unparen(x.Args[1]).(*ast.IndexExpr); ok {
+					awaited := ast.Unparen(x.Args[1])
+					// the value variable of `for _, a := range awaiting` stands for awaiting[i]
+					if aid, ok := awaited.(*ast.Ident); ok {
+						for _, d := range pe.defs[info.Uses[aid]] {
+							if rs, ok := d.(*ast.RangeStmt); ok {
+								if vid, ok := rs.Value.(*ast.Ident); ok && info.Defs[vid] == info.Uses[aid] {
+									awaited = &ast.IndexExpr{X: rs.X, Index: &ast.Ident{Name: "_"}}
+								}
+							}
+						}
+					}
+					if ix, ok := awaited.(*ast.IndexExpr); ok {
 						if id, ok := ast.Unparen(ix.X).(*ast.Ident); ok {
 							var found string
 							ast.Inspect(pe.fd.Body, func(n ast.Node) bool {
@@ -329,6 +349,10 @@ func (pe *provEnv) provD(e ast.Expr, depth int) string {
 			}
 		}
 		base := pe.provD(x.X, depth+1)
+		// a field of a literal handed back by an inlined helper
+		if v, ok := projectLiteral(base, x.Sel.Name); ok {
+			return v
+		}
 		// nested request structs (CreatePromiseAndTask.Promise / .Task) stay distinguishable
 		return base + "." + x.Sel.Name
 	case *ast.Ident:
@@ -342,6 +366,20 @@ func (pe *provEnv) provD(e ast.Expr, depth int) string {
 		}
 		t := v.Type()
 		if namedPkgPath(t) == pkgTApi && strings.HasSuffix(namedName(t), "Request") {
+			// a local naming a nested part of the request (r.CreatePromiseAndTask.Task) keeps its path
+			if !pe.isParam(v) {
+				if ds := pe.defs[obj]; len(ds) == 1 {
+					if as, ok := ds[0].(*ast.AssignStmt); ok && len(as.Lhs) == len(as.Rhs) {
+						for i, l := range as.Lhs {
+							if id, ok := l.(*ast.Ident); ok && (info.Defs[id] == obj || info.Uses[id] == obj) {
+								if _, isSel := ast.Unparen(as.Rhs[i]).(*ast.SelectorExpr); isSel {
+									return pe.provD(as.Rhs[i], depth+1)
+								}
+							}
+						}
+					}
+				}
+			}
 			return "req"
 		}
 		if isNamed(t, pkgSystem, "Config") {
@@ -849,6 +887,15 @@ func (m *coroModel) hoist(l *cmdLit, cf *coroFunc) []*cmdLit {
 			}
 			subst := func(v string) string {
 				for i := 0; i < sig.Params().Len(); i++ {
+					// a command-typed parameter is rendered by its role (cmd:X) inside the helper
+					if pt := sig.Params().At(i).Type(); namedPkgPath(pt) == pkgTAio && strings.HasSuffix(namedName(pt), "Command") {
+						role := "cmd:" + strings.TrimSuffix(namedName(pt), "Command")
+						if strings.Contains(v, role) {
+							re := regexp.MustCompile(regexp.QuoteMeta(role) + `\b`)
+							v = re.ReplaceAllLiteralString(v, caller.Env.prov(call.Args[i]))
+						}
+						continue
+					}
 					pn := sig.Params().At(i).Name()
 					if pn == "" || pn == "_" || !strings.Contains(v, "param:"+pn) {
 						continue
@@ -938,6 +985,15 @@ func (pe *provEnv) inlineHelper(call *ast.CallExpr, depth int) (string, bool) {
 	inner := newProvEnv(pe.pk, fd)
 	body := inner.provD(ret.Results[0], depth+1)
 	for i := 0; i < sig.Params().Len(); i++ {
+		if pt := sig.Params().At(i).Type(); namedPkgPath(pt) == pkgTAio && strings.HasSuffix(namedName(pt), "Command") {
+			// rendered by its role inside the helper
+			role := "cmd:" + strings.TrimSuffix(namedName(pt), "Command")
+			if strings.Contains(body, role) {
+				re := regexp.MustCompile(regexp.QuoteMeta(role) + `\b`)
+				body = re.ReplaceAllLiteralString(body, pe.provD(call.Args[i], depth+1))
+			}
+			continue
+		}
 		pn := sig.Params().At(i).Name()
 		if pn == "" || pn == "_" {
 			continue
@@ -947,6 +1003,21 @@ func (pe *provEnv) inlineHelper(call *ast.CallExpr, depth int) (string, bool) {
 		body = re.ReplaceAllLiteralString(body, arg)
 	}
 	return body, true
+}
+
+// projectLiteral: field f of a provenance that is itself a keyed literal `&T{a:x,b:y}`.
+func projectLiteral(base, f string) (string, bool) {
+	b := strings.TrimPrefix(base, "&")
+	i := strings.Index(b, "{")
+	if i <= 0 || !strings.HasSuffix(b, "}") || strings.ContainsAny(b[:i], "( ,") {
+		return "", false
+	}
+	for _, part := range splitTopLevel(b[i+1 : len(b)-1]) {
+		if strings.HasPrefix(part, f+":") {
+			return part[len(f)+1:], true
+		}
+	}
+	return "", false
 }
 
 func funcDeclOf(pk *packages.Package, fn *types.Func) *ast.FuncDecl {
